@@ -9,6 +9,8 @@ RULE = ('every *_in_background request in every active-blob state (active / none
         'request, and close; checked: worker alive at every quiescence point, next_blob_id grows on overflow, close '
         'returns; spaced stream: dump requests (close / free_excess) each issued after the previous dump task finished with '
         'the worker idle and no message in between (no quiescence probe): the index file of every closed blob must appear; '
+        'deferred stream: deletes in a closed blob spaced closer than deferred_min_time, then silence in real time: the '
+        'postponed re-dump of its index must still happen; '
         'distinct by (multiset of (op, outcome class))')
 ASSUMPTIONS = ['real time only enters through the debounce interval: scripts sleep 250 ms before each overflow write; '
                'tokio task scheduling is not modelled']
@@ -87,9 +89,34 @@ def gen_spaced_script(rng):
     return '\n'.join(L) + '\n'
 
 
+def gen_deferred_script(rng):
+    """The deferred index dump after deletes in closed blobs, in REAL time (no quiescence probe, which would force
+    it): deletes spaced closer than deferred_min_time, then silence; the re-dump of the closed blob's index must
+    still happen (its index file grows by the deletion markers). `nop redump=<id> <minimum growth>` marks the
+    listing that must show it, relative to the listing after the blob was closed."""
+    K = 4
+    dmin = rng.choice([300, 400])
+    L = ['cfg K=4 dup=1 group=%d bloom=none init=eager runtime=%s defer=%d:%d' % (rng.choice([2, 8]), rng.choice(['mt', 'ct']), dmin, rng.choice([3000, 20000])), 'open']
+    nk = rng.choice([3, 4, 5])
+    for i in range(nk):
+        L.append('W %s 5 - 5 %d' % ((i + 1).to_bytes(K, 'big').hex(), i + 1))
+    L += ['close_active', 'quiesce', 'nop base', 'ls', 'create_active', 'autoquiesce 0']
+    nd = rng.choice([1, 2, 2, 3])
+    for j in range(nd):
+        L.append('D %s %d - 1' % ((j + 1).to_bytes(K, 'big').hex(), 50 + j))
+        if j < nd - 1:
+            L.append('sleep %d' % rng.choice([dmin // 3, dmin // 2]))
+    if rng.random() < 0.3:
+        L += ['W %s 6 - 5 99' % (9).to_bytes(K, 'big').hex()]
+    L.append('sleep %d' % (dmin * 3 + 400))
+    L += ['nop redump=0 %d' % (nd * (57 + K)), 'ls', 'autoquiesce 1', 'quiesce', 'counts', 'close']
+    return '\n'.join(L) + '\n'
+
+
 def gen(tier, rng):
     n = 96 if tier == 'quick' else 1500
-    return [('bg%05d' % i, gen_script(rng)) for i in range(n)] + [('spaced%05d' % i, gen_spaced_script(rng)) for i in range(n // 4)]
+    return [('bg%05d' % i, gen_script(rng)) for i in range(n)] + [('spaced%05d' % i, gen_spaced_script(rng)) for i in range(n // 4)] + \
+           [('deferred%05d' % i, gen_deferred_script(rng)) for i in range(n // 6)]
 
 
 def next_of(line):
@@ -105,6 +132,7 @@ def oracle(lines, io, spec=None):
     # was an inapplicable background request made? (state tracked from the implementation's own counters)
     has_active = None
     closed_present = None
+    base_ls = None
     for i, (l, o) in enumerate(zip(lines, io)):
         t = l.split()[0]
         if t == 'open' and o == 'open ok' and has_active is None:
@@ -120,6 +148,17 @@ def oracle(lines, io, spec=None):
             inapplicable = (t == 'bg_create' and has_active) or (t == 'bg_close' and not has_active) or \
                            (t == 'bg_restore' and (has_active or not closed_present))
             bad_bg = bad_bg or inapplicable
+        if l == 'nop base' and i + 1 < len(io) and lines[i + 1] == 'ls':
+            base_ls = io[i + 1]
+        if t.startswith('nop') and 'redump=' in l and i + 1 < len(io) and lines[i + 1] == 'ls':
+            import re as _re
+            bid = l.split('redump=')[1].split()[0]
+            grow = int(l.split()[-1])
+            m0 = _re.search(r't\.%s\.index:(\d+)' % bid, base_ls or '')
+            m1 = _re.search(r't\.%s\.index:(\d+)' % bid, io[i + 1])
+            if m0 and (not m1 or int(m1.group(1)) < int(m0.group(1)) + grow):
+                fails.append('line %d: the deferred index dump of closed blob %s did not happen (index file %s bytes after closing, %s bytes %s after the last delete; worker idle, no error)' % (
+                    i, bid, m0.group(1), m1.group(1) if m1 else 'absent', 'long'))
         if t.startswith('nop') and 'dumped=' in l and i + 1 < len(io) and lines[i + 1] == 'ls':
             bid = l.split('dumped=')[1]
             if ('t.%s.index:' % bid) not in io[i + 1]:
